@@ -62,11 +62,9 @@ theorem subtract_filter {α} [DecidableEq α] (set input : List α) (hi : input 
   intro x hx
   simp [mem_intersect, hx]
 
-theorem getMissing_same_names (req avail : List DS) (hne : req ≠ []) (hn : names req = names avail)
-    (hnd : (names req).Nodup) :
+theorem getMissing_same_names (req avail : List DS) (hne : req ≠ []) (hav : avail ≠ [])
+    (hn : ∀ n ∈ names req, n ∈ names avail) (hnd : (names req).Nodup) :
     getMissingAndTypeCoercionColumns req avail = .ok ([], req.filter (fun d => decide (d ∉ avail))) := by
-  have hav : avail ≠ [] := by
-    intro h; rw [h] at hn; simp [names] at hn; exact hne hn
   have e1 : avail.isEmpty = false := by cases avail <;> simp_all
   have e2 : req.isEmpty = false := by cases req <;> simp_all
   unfold getMissingAndTypeCoercionColumns
@@ -79,8 +77,8 @@ theorem getMissing_same_names (req avail : List DS) (hne : req ≠ []) (hn : nam
     rw [this]
   · have hM : subtract req avail = req.filter (fun d => decide (d ∉ avail)) := subtract_filter req avail hav
     have hN : subtract (names req) (names avail) = [] := by
-      rw [subtract_filter _ _ (by rw [← hn]; simpa [names] using hne), List.filter_eq_nil_iff]
-      intro a ha; rw [hn] at ha; simpa using ha
+      rw [subtract_filter _ _ (by simpa [names] using hav), List.filter_eq_nil_iff]
+      intro a ha; simpa using hn a ha
     simp only [hM, hN, List.length_nil]
     have hx : extract req [] = [] := rfl
     split
@@ -230,25 +228,25 @@ theorem col_unique (cols : List Col) (h : (cols.map (·.ds.name)).Nodup) (c c' :
     · exact absurd (List.mem_map.mpr ⟨c, hc, hn⟩) h.1
     · exact ih h.2 hc hc'
 
-theorem checkAndCoerce_same_names (db : List DS) (cols : List Col)
-    (hnames : cols.map (·.ds.name) = names db) (hnd : (epochName :: names db).Nodup)
+/-- same SET of names (any order), unique names on both sides -/
+theorem checkAndCoerce_by_name (db : List DS) (cols : List Col)
+    (hlen : db.length = cols.length) (hnd : (epochName :: names db).Nodup) (hcn : (cols.map (·.ds.name)).Nodup)
+    (hdbc : ∀ d ∈ db, d.name ∈ cols.map (·.ds.name)) (hcdb : ∀ c ∈ cols, c.ds.name ∈ names db)
     (hdef : ∀ d ∈ db, ∀ c ∈ cols, c.ds.name = d.name → c.ds.ty ≠ d.ty → Defined d c) :
     checkAndCoerce db cols = .ok (cols.map (coerced db)) := by
-  have hlen : db.length = cols.length := by
-    have := congrArg List.length hnames
-    simpa [names] using this.symm
   have hndb : (names db).Nodup := (List.nodup_cons.mp hnd).2
   have hep : ∀ d ∈ db, d.name ≠ epochName := by
     intro d hd he
     exact (List.nodup_cons.mp hnd).1 (he ▸ List.mem_map.mpr ⟨d, hd, rfl⟩)
-  have hcn : (cols.map (·.ds.name)).Nodup := hnames ▸ hndb
-  have hnreq : names (epochDS :: db) = names (epochDS :: cols.map (·.ds)) := by
-    simp only [names, List.map_cons, List.map_map]
-    congr 1
-    have : List.map ((fun x => x.name) ∘ fun x => x.ds) cols = List.map (fun x => x.ds.name) cols := rfl
-    rw [this, hnames]; rfl
+  have hnreq : ∀ n ∈ names (epochDS :: db), n ∈ names (epochDS :: cols.map (·.ds)) := by
+    intro n hn
+    simp only [names, List.map_cons, List.map_map, List.mem_cons] at hn ⊢
+    rcases hn with rfl | hn
+    · exact Or.inl rfl
+    · obtain ⟨d, hd, rfl⟩ := List.mem_map.mp hn
+      exact Or.inr (hdbc d hd)
   have hndreq : (names (epochDS :: db)).Nodup := by simpa [names, epochDS] using hnd
-  have hg := getMissing_same_names (epochDS :: db) (epochDS :: cols.map (·.ds)) (by simp) hnreq hndreq
+  have hg := getMissing_same_names (epochDS :: db) (epochDS :: cols.map (·.ds)) (by simp) (by simp) hnreq hndreq
   -- the coercion list: bucket columns whose exact shape the request does not carry
   have hD0 : (epochDS :: db).filter (fun d => decide (d ∉ epochDS :: cols.map (·.ds))) =
       db.filter (fun d => decide (d ∉ epochDS :: cols.map (·.ds))) := by
@@ -271,7 +269,7 @@ theorem checkAndCoerce_same_names (db : List DS) (cols : List Col)
     intro d hd
     obtain ⟨hdb, hnc⟩ := (hmemD d).mp hd
     -- a request column of that name exists, and its type differs
-    have hex : d.name ∈ cols.map (·.ds.name) := hnames ▸ List.mem_map.mpr ⟨d, hdb, rfl⟩
+    have hex : d.name ∈ cols.map (·.ds.name) := hdbc d hdb
     obtain ⟨c0, hc0, hn0⟩ := List.mem_map.mp hex
     have hty : ∀ c ∈ cols, c.ds.name = d.name → c.ds.ty ≠ d.ty := by
       intro c hc hn ht
@@ -285,7 +283,7 @@ theorem checkAndCoerce_same_names (db : List DS) (cols : List Col)
   rw [fold_find _ hDnd c]
   unfold coerced
   -- the bucket column of c's name
-  have hex : c.ds.name ∈ names db := hnames ▸ List.mem_map.mpr ⟨c, hc, rfl⟩
+  have hex : c.ds.name ∈ names db := hcdb c hc
   obtain ⟨dn, hdn, hnn⟩ := List.mem_map.mp hex
   have hfdb : db.find? (fun d => decide (d.name = c.ds.name)) = some dn := by
     have := find_unique db hndb dn hdn
@@ -321,6 +319,18 @@ theorem checkAndCoerce_same_names (db : List DS) (cols : List Col)
     rw [this]
     simp [hty]
 
+theorem checkAndCoerce_same_names (db : List DS) (cols : List Col)
+    (hnames : cols.map (·.ds.name) = names db) (hnd : (epochName :: names db).Nodup)
+    (hdef : ∀ d ∈ db, ∀ c ∈ cols, c.ds.name = d.name → c.ds.ty ≠ d.ty → Defined d c) :
+    checkAndCoerce db cols = .ok (cols.map (coerced db)) := by
+  have hlen : db.length = cols.length := by
+    have := congrArg List.length hnames
+    simpa [names] using this.symm
+  apply checkAndCoerce_by_name db cols hlen hnd (hnames ▸ (List.nodup_cons.mp hnd).2)
+  · intro d hd; rw [hnames]; exact List.mem_map.mpr ⟨d, hd, rfl⟩
+  · intro c hc; rw [← hnames]; exact List.mem_map.mpr ⟨c, hc, rfl⟩
+  · exact hdef
+
 /-- after the coercion the request's columns carry exactly the bucket's shapes, in the request's
     order — which is the bucket's order when the names are listed in bucket order -/
 theorem coerced_shapes (db : List DS) (cols : List Col) (hnames : cols.map (·.ds.name) = names db)
@@ -347,5 +357,73 @@ theorem coerced_shapes (db : List DS) (cols : List Col) (hnames : cols.map (·.d
       simp only [hnames]
     simp only [names, List.getElem_map] at hnm
     exact key cols[i] (List.getElem_mem _) db[i] (List.getElem_mem _) hnm.symm
+
+/-! ### the repaired `WriteCSM`: bucket order, and nothing queued by a failing request -/
+
+theorem coerced_name (db : List DS) (c : Col) : (coerced db c).ds.name = c.ds.name := by
+  unfold coerced
+  split
+  · split <;> simp [conv1]
+  · rfl
+
+theorem coerced_ds (db : List DS) (hndb : (names db).Nodup) (c : Col) (d : DS) (hd : d ∈ db)
+    (hn : d.name = c.ds.name) : (coerced db c).ds = d := by
+  have hf := find_unique db hndb d hd
+  rw [hn] at hf
+  unfold coerced
+  rw [hf]
+  by_cases hty : c.ds.ty = d.ty
+  · simp only [hty, if_true]
+    cases hcd : c.ds; cases d; simp_all
+  · simp only [hty, if_false, conv1]
+    cases d; simp_all
+
+theorem filterMap_map_id {α β} (l : List α) (f : α → Option β) (h : β → α)
+    (hf : ∀ d ∈ l, ∃ x, f d = some x ∧ h x = d) : (l.filterMap f).map h = l := by
+  induction l with
+  | nil => rfl
+  | cons a t ih =>
+    obtain ⟨x, hx, hh⟩ := hf a (by simp)
+    simp only [List.filterMap_cons, hx, List.map_cons, hh]
+    rw [ih (fun d hd => hf d (by simp [hd]))]
+
+/-- after `cs.Project(bucket names)` the coerced columns carry exactly the bucket's shapes in the
+    BUCKET's order, whatever the order of the request -/
+theorem projected_shapes (db : List DS) (cols : List Col) (hndb : (names db).Nodup)
+    (hdbc : ∀ d ∈ db, d.name ∈ cols.map (·.ds.name)) :
+    (projectCols (names db) (cols.map (coerced db))).map (·.ds) = db := by
+  unfold projectCols names
+  rw [List.filterMap_map]
+  apply filterMap_map_id
+  intro d hd
+  obtain ⟨c0, hc0, hn0⟩ := List.mem_map.mp (hdbc d hd)
+  have hsome : ((cols.map (coerced db)).find? (fun c => decide (c.ds.name = d.name))).isSome = true := by
+    rw [List.find?_isSome]
+    exact ⟨coerced db c0, List.mem_map.mpr ⟨c0, hc0, rfl⟩, by simp [coerced_name, hn0]⟩
+  obtain ⟨x, hx⟩ := Option.isSome_iff_exists.mp hsome
+  refine ⟨x, hx, ?_⟩
+  have hmem := List.mem_of_find?_eq_some hx
+  have hp := List.find?_some hx
+  obtain ⟨c, _, rfl⟩ := List.mem_map.mp hmem
+  simp only [decide_eq_true_eq, coerced_name] at hp
+  exact coerced_ds db hndb c d hd hp.symm
+
+theorem loop_atomic (o : Bool) (schema : String → Option (List DS)) (parts : List Part) (q : List Queued)
+    (created : List (String × List DS)) (e : Reject)
+    (h : (writeCSMLoop ⟨o, true⟩ schema parts q created).1 = some e) :
+    (writeCSMLoop ⟨o, true⟩ schema parts q created).2.1 = [] := by
+  induction parts generalizing q created with
+  | nil => simp [writeCSMLoop] at h
+  | cons p rest ih =>
+    unfold writeCSMLoop at h ⊢
+    split
+    · rename_i hs; simp only [hs, if_true] at h; exact ih _ _ h
+    · rename_i hs
+      simp only [hs, if_false] at h ⊢
+      split
+      · rfl
+      · rename_i cols' hok
+        simp only [hok] at h
+        exact ih _ _ h
 
 end Mkts.Coerce
